@@ -456,6 +456,91 @@ def f43():
     return (a.d == b.d) and not (a.d != b.d) and a == b, "equal typed dicts of different configurations: == %r, != %r" % (a.d == b.d, a.d != b.d)
 
 
+@witness("F44", ["C15"])
+def f44():
+    from cincoconfig import Schema, ListField, IntField, ValidationError
+    it = Schema()
+    it.n = IntField()
+    s = Schema()
+    s.items = ListField(it)
+    paths = []
+    for route in ("load", "assign"):
+        c = s()
+        if route == "load":
+            c.load_tree({"items": [{"n": 1}, {"n": 2}]})
+        else:
+            c.items = [{"n": 1}, {"n": 2}]
+        c.validate()
+        c.items.insert(0, {"n": 0})
+        try:
+            c.items[1].n = "bad"
+            paths.append(None)
+        except ValidationError as e:
+            paths.append(e.ref_path)
+    return paths == ["items[1].n", "items[1].n"], "item index after load + insert: %r" % paths
+
+
+@witness("F47", ["C13"])
+def f47():
+    from cincoconfig import Schema, ListField, DictField
+    s = Schema()
+    s.l = ListField(default=[(1, [2])])
+    s.d = DictField(default={"k": ({"x": 1},)})
+    a = s()
+    b = s()
+    a.l[0][1].append(3)
+    a.d["k"][0]["x"] = 2
+    ok = (b.l == [(1, [2])] and s._fields["l"].default == [(1, [2])]
+          and b.d == {"k": ({"x": 1},)} and s._fields["d"].default == {"k": ({"x": 1},)})
+    return ok, "containers inside a tuple of a default are per-configuration: %r %r" % (list(b.l), dict(b.d))
+
+
+@witness("F48", ["C15"])
+def f48():
+    from cincoconfig import Schema, ListField, IntField, ValidationError
+    it = Schema()
+    it.n = IntField(min=0, max=10)
+    s = Schema()
+    s.items = ListField(it)
+    paths = []
+    for route in ("ctor", "attr", "append", "load"):
+        try:
+            if route == "ctor":
+                s(items=[{"n": 50}])
+            elif route == "attr":
+                s().items = [{"n": 50}]
+            elif route == "append":
+                c = s()
+                c.items = []
+                c.items.append({"n": 50})
+            else:
+                s().load_tree({"items": [{"n": 50}]})
+            paths.append(None)
+        except ValidationError as e:
+            paths.append(e.ref_path)
+    return paths == ["items[0].n"] * 4, "first item of a list rejected: %r" % paths
+
+
+@witness("F49", ["C05", "C01"])
+def f49():
+    from cincoconfig import IPv4NetworkField
+    out = []
+    for f, x in [(IPv4NetworkField(min_len=10), "0.0.0.0/00"), (IPv4NetworkField(max_len=8), "10.1.2.3"),
+                 (IPv4NetworkField(choices=["10.1.2.3"]), "10.1.2.3"), (IPv4NetworkField(regex=r"^[0-9.]+$"), "10.1.2.3"),
+                 (IPv4NetworkField(max_len=11), "10.1.2.3")]:
+        try:
+            v = f.validate(None, x)
+        except ValueError:
+            out.append("rejected")
+            continue
+        try:
+            out.append("idempotent" if f.validate(None, v) == v else "changed")
+        except ValueError:
+            out.append("accepted-then-rejected")
+    return "accepted-then-rejected" not in out and "changed" not in out and out[-1] == "idempotent", \
+        "IPv4NetworkField with string constraints: %r" % out
+
+
 def main(argv):
     home = _tmp()
     os.environ["HOME"] = home
